@@ -488,3 +488,98 @@ Definition gen_flush_tbl (t : target) (m : mode) (k : evkind) : bool :=
   | STREE, KPI => s_flush_processingInstruction | STREE, KIws => s_flush_ignorableWhitespace
   | STREE, KEntRef => s_flush_entityReference
   end.
+
+(* ---- document-order indexes of the source-tree target ----
+   XalanSourceTreeDocument hands out m_nextIndexValue++ to every node it creates (createElementNode: the element, then
+   its attribute nodes in vector order; createTextNode / createTextIWSNode / createCommentNode /
+   createProcessingInstructionNode: one each); DOMServices::isNodeAfter and the node-list sorting compare these
+   indexes.  The index layer runs beside the builder state: the same zipper with (index, number of attribute nodes)
+   in place of the node data.  A node takes its index when it is CREATED; everywhere but in startElement() creation and
+   linking are adjacent; for startElement() the order of "create the element" and "flush the text" is read from the
+   source (s_element_created_after_flush).  FormatterToXercesDOM stores no index: order in a Xerces DOM is structural. *)
+Inductive ixn := IxN (i : N) (na : nat) (ch : list ixn).
+Definition ixframe := (N * nat * list ixn)%type.
+Record ixst := mkIx { icur : list ixn; ictx : list ixframe; nxt : N }.
+(* [a]: the document's index counter when the builder starts (st_first_index on a fresh document; a document fragment
+   takes one index itself when it is constructed; a document that already holds result tree fragments is further on) *)
+Definition ix0 (a : N) : ixst := mkIx [] [] a.
+
+Definition ix_leaf (x : ixst) : ixst := mkIx (IxN (nxt x) 0 [] :: icur x) (ictx x) (nxt x + 1).
+Definition ix_close (c : list ixn) (f : ixframe) : list ixn := match f with (i, na, pc) => IxN i na (rev c) :: pc end.
+Definition ix_pop (x : ixst) : ixst :=
+  match ictx x with f :: r => mkIx (ix_close (icur x) f) r (nxt x) | [] => x end.
+(* processAccumulatedText creates a text node iff the buffer is not empty ([b]: the builder state before the event) *)
+Definition ix_flush (b : st) (x : ixst) : ixst := if is_empty (buf b) then x else ix_leaf x.
+Definition ix_flush_if (f : bool) (b : st) (x : ixst) : ixst := if f then ix_flush b x else x.
+
+Definition ix_start (na : nat) (b : st) (x : ixst) : ixst :=
+  if s_element_created_after_flush then
+    let x1 := ix_flush_if s_flush_startElement b x in
+    mkIx [] ((nxt x1, na, icur x1) :: ictx x1) (nxt x1 + 1 + N.of_nat na)
+  else
+    let x0 := mkIx (icur x) (ictx x) (nxt x + 1 + N.of_nat na) in
+    let x1 := ix_flush_if s_flush_startElement b x0 in
+    mkIx [] ((nxt x, na, icur x1) :: ictx x1) (nxt x1).
+
+Definition ix_step (m : mode) (e : ev) (b : st) (x : ixst) : ixst :=
+  match e with
+  | EvStartDoc => let x1 := ix_flush_if s_flush_startDocument b x in
+                  mkIx (fold_left ix_close (ictx x1) (icur x1)) [] (nxt x1)
+  | EvEndDoc => ix_flush_if (match m with MFrag => s_flush_endDocument_frag | MDoc => s_flush_endDocument_doc end) b x
+  | EvStart _ a => ix_start (length a) b x
+  | EvEnd _ => ix_pop (ix_flush_if s_flush_endElement b x)
+  | EvChars _ => ix_flush_if s_flush_characters b x
+  | EvRaw _ => ix_leaf (ix_flush_if s_flush_charactersRaw b x)
+  | EvCdata _ => ix_flush_if s_flush_cdata b x
+  | EvComment _ => ix_leaf (ix_flush_if s_flush_comment b x)
+  | EvPI _ _ => ix_leaf (ix_flush_if s_flush_processingInstruction b x)
+  | EvIws _ => match m, ctx b with
+               | MDoc, [] => x
+               | _, _ => ix_leaf (ix_flush_if s_flush_ignorableWhitespace b x)
+               end
+  | EvEntRef _ => ix_flush_if s_flush_entityReference b x
+  end.
+
+Fixpoint ix_run (m : mode) (res : resolver) (evs : list ev) (b : st) (x : ixst) : option (st * ixst) :=
+  match evs with
+  | [] => Some (b, x)
+  | e :: r => match s_step m res e b with
+              | Some b' => ix_run m res r b' (ix_step m e b x)
+              | None => None
+              end
+  end.
+
+Definition ix_result (x : ixst) : list ixn := rev (fold_left ix_close (ictx x) (icur x)).
+
+Fixpoint nseq (a : N) (n : nat) : list N := match n with O => [] | S k => a :: nseq (a + 1) k end.
+
+(* document order: the element, its attribute nodes, its children *)
+Fixpoint ix_pre (n : ixn) : list N :=
+  match n with IxN i na ch => i :: nseq (i + 1) na ++ flat_map ix_pre ch end.
+
+(* independent reading: pre-order numbering of a finished tree *)
+Fixpoint number (a : N) (n : tnode) : ixn * N :=
+  match n with
+  | TElem _ _ at_ ch =>
+      let r := (fix go (l : list tnode) (k : N) : list ixn * N :=
+                  match l with
+                  | [] => ([], k)
+                  | y :: r => let (y', k1) := number k y in let (r', k2) := go r k1 in (y' :: r', k2)
+                  end) ch (a + 1 + N.of_nat (length at_))%N in
+      (IxN a (length at_) (fst r), snd r)
+  | _ => (IxN a 0 [], (a + 1)%N)
+  end.
+
+Fixpoint number_list (a : N) (l : list tnode) : list ixn * N :=
+  match l with
+  | [] => ([], a)
+  | y :: r => let (y', k1) := number a y in let (r', k2) := number_list k1 r in (y' :: r', k2)
+  end.
+
+Definition fresh_start (m : mode) : N := match m with MDoc => st_first_index | MFrag => (st_first_index + 1)%N end.
+
+Definition run_indexes (m : mode) (res : resolver) (a : N) (evs : list ev) : option (list tnode * list ixn) :=
+  match ix_run m res evs st0 (ix0 a) with
+  | Some (b, x) => Some (result b, ix_result x)
+  | None => None
+  end.
